@@ -308,6 +308,15 @@ Proof.
   - intros v Hv. rewrite Rg in Hv. apply HH5. exact Hv.
 Qed.
 
+Lemma Inv_stop s u self t s' o p : stop_if_parent_gone s u self t = (s', o, p) -> Inv s -> Inv s' /\ (regu u s -> regu u s').
+Proof.
+  intros H HI. assert (Q : qk s s').
+  { revert H. unfold stop_if_parent_gone. destruct (get s u) as [pa|]; [|intros H; inversion H; subst; apply qk_refl].
+    destruct (st_ge_terminating (a_st pa)); [|intros H; inversion H; subst; apply qk_refl].
+    destruct (terminate s self t (a_graceful pa)) as [s1 o1] eqn:E. intros H; inversion H; subst. eapply qk_terminate; [apply HI|exact E]. }
+  split; [eapply Inv_qk; eassumption|apply regu_qk; exact Q].
+Qed.
+
 Lemma Inv_spawn s u self t r s' o p a :
   spawn s u self t r = (s', o, p) -> Inv s -> 0 <= t -> get s u = Some a -> a_tok a = self ->
   (reg s u a \/ (self = rGuard /\ lookup rGuard (registry s) = None /\ a_st a = Terminated)) ->
@@ -327,7 +336,10 @@ Proof.
   - intros H; inversion H; subst. split.
     + apply Inv_append_zombie; [exact I1|congruence].
     + intros R0. destruct (Ru R0) as (b & Hb & Rb). exists b. split; [|exact Rb]. unfold s2. rewrite get_app_old by (eapply get_lt; exact Hb). exact Hb.
-  - intros H; inversion H; subst s' o p. clear H.
+  - intros H.
+    match type of H with stop_if_parent_gone ?s5 _ _ _ = _ => cut (Inv s5 /\ (regu u s -> regu u s5)) end.
+    { intros [I5 R5]. destruct (Inv_stop _ _ _ _ _ _ _ H I5) as [I6 R6]. split; [exact I6|intros R0; apply R6; apply R5; exact R0]. }
+    clear H.
     destruct I1 as (HR & HH2 & HH3 & HH4 & HH5).
     assert (Hult : (u < n)%nat) by (eapply get_lt; exact Ha1).
     set (s3 := set_registry s2 (set_key t n (registry s1))).
